@@ -4,6 +4,7 @@ import (
 	"context"
 	"encoding/json"
 	"fmt"
+	"math"
 	"os"
 	"sync"
 
@@ -19,6 +20,31 @@ type valForm struct {
 	tagged any
 	f64    any
 	num    any
+}
+
+// goNative: the value as a Go caller builds it by hand -- integral numbers are int (visitJSON takes int, int32, int64
+// and float64 for a number), everything else as decoded.
+func goNative(v any) any {
+	switch x := v.(type) {
+	case float64:
+		if x == math.Trunc(x) && math.Abs(x) < 1e15 {
+			return int(x)
+		}
+		return x
+	case []any:
+		out := make([]any, len(x))
+		for i, e := range x {
+			out[i] = goNative(e)
+		}
+		return out
+	case map[string]any:
+		out := make(map[string]any, len(x))
+		for k, e := range x {
+			out[k] = goNative(e)
+		}
+		return out
+	}
+	return v
 }
 
 var sharedVals = sync.OnceValue(func() []valForm {
@@ -48,17 +74,116 @@ func mkValForm(raw json.RawMessage) valForm {
 	return valForm{tagged: t, f64: decodeJSONText(text, false), num: decodeJSONText(text, true)}
 }
 
+// absChildren calls f on every direct sub-schema of an abstract schema and stores what f returns in a copy.
+func absMapChildren(m map[string]any, f func(any) any) map[string]any {
+	out := make(map[string]any, len(m))
+	for k, x := range m {
+		switch k {
+		case "not", "items", "apSchema":
+			out[k] = f(x)
+		case "allOf", "anyOf", "oneOf", "ps":
+			l := []any{}
+			for _, s := range asSlice(x) {
+				l = append(l, f(s))
+			}
+			out[k] = l
+		default:
+			out[k] = x
+		}
+	}
+	return out
+}
+
+// shareAbs is the realiser of the "share" dimension (spec/SchemaUniverse.tla ShareWrappers): every non-empty
+// sub-schema that occurs more than once in the abstract schema becomes ONE component, and each occurrence a
+// reference to it ([ref |-> name]), so that the loaded document holds one schema object for all occurrences.
+func shareAbs(root any) (any, map[string]any) {
+	canon := func(n any) string { b, _ := json.Marshal(n); return string(b) }
+	counts := map[string]int{}
+	var count func(n any) any
+	count = func(n any) any {
+		if m, ok := n.(map[string]any); ok && len(m) > 0 {
+			counts[canon(m)]++
+			absMapChildren(m, count)
+		}
+		return n
+	}
+	comps := map[string]any{}
+	names := map[string]string{}
+	var tr func(n any) any
+	tr = func(n any) any {
+		m, ok := n.(map[string]any)
+		if !ok || len(m) == 0 {
+			return n
+		}
+		key := canon(m)
+		if counts[key] < 2 {
+			return absMapChildren(m, tr)
+		}
+		name, seen := names[key]
+		if !seen {
+			name = fmt.Sprintf("C%d", len(names)+1)
+			names[key] = name
+			comps[name] = absMapChildren(m, tr)
+		}
+		return map[string]any{"ref": name}
+	}
+	rm, ok := root.(map[string]any)
+	if !ok {
+		return root, comps
+	}
+	absMapChildren(rm, count)
+	return absMapChildren(rm, tr), comps
+}
+
+// inlineRefs is the projector's inverse of shareAbs: references are replaced by the component they designate.
+func inlineRefs(n any, comps map[string]any, depth int) (any, bool) {
+	m, ok := n.(map[string]any)
+	if !ok {
+		return n, true
+	}
+	if depth > 20 {
+		return nil, false
+	}
+	if name, isRef := m["ref"].(string); isRef && len(m) == 1 {
+		c, ok := comps[name]
+		if !ok {
+			return nil, false
+		}
+		return inlineRefs(c, comps, depth+1)
+	}
+	okAll := true
+	out := absMapChildren(m, func(x any) any {
+		r, ok := inlineRefs(x, comps, depth+1)
+		okAll = okAll && ok
+		return r
+	})
+	return out, okAll
+}
+
 // loadSchema renders the abstract schema, loads it through the real loader and returns it.
-func loadSchema(abs any) (*openapi3.Schema, *openapi3.T, error) {
+func loadSchema(abs any) (*openapi3.Schema, *openapi3.T, error) { return loadSchemaShared(abs, false) }
+
+// loadSchemaShared: with share, repeated sub-schemas are realised as references to shared components.
+func loadSchemaShared(abs any, share bool) (*openapi3.Schema, *openapi3.T, error) {
+	schemas := map[string]any{
+		// the schema a discriminator mapping of the universe designates ("discref": key "k")
+		"D": map[string]any{"type": "object", "properties": map[string]any{"y": map[string]any{"type": "integer"}}},
+	}
+	if share {
+		root, comps := shareAbs(abs)
+		schemas["S"] = absSchemaToOpenAPI(root)
+		for name, c := range comps {
+			schemas[name] = absSchemaToOpenAPI(c)
+		}
+	} else {
+		schemas["S"] = absSchemaToOpenAPI(abs)
+	}
 	doc := map[string]any{
-		"openapi": "3.0.3",
-		"info":    map[string]any{"title": "t", "version": "1"},
-		"paths":   map[string]any{},
-		"components": map[string]any{"schemas": map[string]any{
-			"S": absSchemaToOpenAPI(abs),
-			// the schema a discriminator mapping of the universe designates ("discref": key "k")
-			"D": map[string]any{"type": "object", "properties": map[string]any{"y": map[string]any{"type": "integer"}}},
-		}},
+		"openapi":    "3.0.3",
+		"info":       map[string]any{"title": "t", "version": "1"},
+		"paths":      map[string]any{},
+		"components": map[string]any{"schemas": schemas},
 	}
 	data, err := json.Marshal(doc)
 	if err != nil {
@@ -97,15 +222,54 @@ func boolVerdict(f func() bool) string {
 }
 
 type c01Case struct {
-	S    any   `json:"s"`
-	Vals []any `json:"vals"` // optional: explicit values (driver-generated cases)
+	S     any   `json:"s"`
+	Vals  []any `json:"vals"`  // optional: explicit values (driver-generated cases)
+	Share bool  `json:"share"` // repeated sub-schemas are shared components
+}
+
+// projectSchema: what the library holds (marshalled back), projected to the abstract form; references inlined.
+func projectSchema(schema *openapi3.Schema, doc *openapi3.T) (any, bool) {
+	proj := func(x any) (any, bool) {
+		b, err := json.Marshal(x)
+		if err != nil {
+			return nil, false
+		}
+		var o map[string]any
+		d := json.NewDecoder(bytesReader(b))
+		d.UseNumber()
+		if d.Decode(&o) != nil {
+			return nil, false
+		}
+		return openAPIToAbsSchema(o)
+	}
+	rs, ok := proj(schema)
+	if !ok {
+		return nil, false
+	}
+	comps := map[string]any{}
+	for name, ref := range doc.Components.Schemas {
+		if name == "S" || ref.Value == nil {
+			continue
+		}
+		if c, ok := proj(ref.Value); ok {
+			comps[name] = c
+		}
+	}
+	rs, ok = inlineRefs(rs, comps, 0)
+	if m, isMap := rs.(map[string]any); ok && isMap && len(m) == 0 {
+		return []any{}, true
+	}
+	return rs, ok
 }
 
 func c01Run(c *Case) []any {
 	var tc c01Case
 	c.Decode(&tc)
 	line := map[string]any{"case": c.Idx, "s": tc.S}
-	schema, _, err := loadSchema(tc.S)
+	if tc.Share {
+		line["share"] = true
+	}
+	schema, doc, err := loadSchemaShared(tc.S, tc.Share)
 	if err != nil {
 		line["load"] = "error"
 		line["loadErr"] = err.Error()
@@ -113,15 +277,8 @@ func c01Run(c *Case) []any {
 	}
 	line["load"] = "ok"
 	// realiser round trip: what the library holds, projected back to the abstract form
-	if b, err := json.Marshal(schema); err == nil {
-		var o map[string]any
-		d := json.NewDecoder(bytesReader(b))
-		d.UseNumber()
-		if d.Decode(&o) == nil {
-			if rs, ok := openAPIToAbsSchema(o); ok {
-				line["rs"] = rs
-			}
-		}
+	if rs, ok := projectSchema(schema, doc); ok {
+		line["rs"] = rs
 	}
 	vals := sharedVals()
 	if tc.Vals != nil {
@@ -132,13 +289,14 @@ func c01Run(c *Case) []any {
 		}
 		line["vals"] = tc.Vals
 	}
-	of, on, om := []any{}, []any{}, []any{}
+	of, on, om, og := []any{}, []any{}, []any{}, []any{}
 	for _, v := range vals {
 		of = append(of, verdict(func() error { return schema.VisitJSON(v.f64) }))
 		on = append(on, verdict(func() error { return schema.VisitJSON(v.num) }))
 		om = append(om, boolVerdict(func() bool { return schema.IsMatching(v.f64) }))
+		og = append(og, verdict(func() error { return schema.VisitJSON(goNative(v.f64)) }))
 	}
-	line["of"], line["on"], line["om"] = of, on, om
+	line["of"], line["on"], line["om"], line["og"] = of, on, om, og
 	return []any{line}
 }
 
@@ -148,7 +306,11 @@ func init() {
 		Abnormal: func(c *Case, kind string) []any {
 			var tc c01Case
 			c.Decode(&tc)
-			return []any{map[string]any{"case": c.Idx, "s": tc.S, "load": kind}}
+			line := map[string]any{"case": c.Idx, "s": tc.S, "load": kind}
+			if tc.Share {
+				line["share"] = true
+			}
+			return []any{line}
 		},
 	}
 	_ = context.Background
